@@ -8,7 +8,7 @@ CHECKS = {
  # id: (engine, category, technique, level text, level note, design ref)
  "C04": ("codec+e2e", "exploration",
          "strict independent wire parser as oracle on every emitted request (differential monitoring)",
-         "Every request encoder is called with generated boundary-heavy arguments and every frame the simulated brokers receive in end-to-end runs is parsed by an independent strict implementation of the protocol grammar and compared field by field with what the caller supplied; version selection is observed against generated ApiVersions tables. Held = on the executions produced; sampling, not proof.",
+         "Every request encoder is called with generated boundary-heavy arguments and every frame the simulated brokers receive in end-to-end runs is parsed by an independent strict implementation of the protocol grammar and compared field by field with what the caller supplied; version selection is observed in end-to-end producer+consumer runs against generated ApiVersions tables (dense, full, unordered, sparse) and brokers that close, ignore or reject version discovery: ApiVersions precedes the first Produce/Fetch, the version sent is advertised for that API and implemented, v0 after failed discovery, and the replies are decoded correctly (offsets, keys, delivered stream). Two defects found there were fixed in /repo. Held = on the executions produced; sampling, not proof.",
          "trusts afkverif/refproto.py (written from the protocol guide, self-tested, shares no code with afkak); snappy not installed", "3/C04"),
  "C05": ("codec", "exploration",
          "differential monitoring: independent reference encoder -> afkak decoders; round-trip law",
